@@ -401,7 +401,41 @@ fn main() {
                     _ => {}
                 }
             }
-            let body = body.unwrap_or_else(|| lost(&format!("slice: function {} not found in {}", fname, path)));
+            let mut body = body.unwrap_or_else(|| lost(&format!("slice: function {} not found in {}", fname, path)));
+            // `within`: descend into nested blocks first.  Each element names a statement of the current block by its prefix and the
+            // ordinal of the block directly nested in it (then-branch, else-branch, match-arm bodies, loop body: in source order)
+            if let Some(withins) = sl["within"].as_array() {
+                for w in withins {
+                    let pfx = norm(w["stmt"].as_str().unwrap_or_else(|| lost("slice.within.stmt")));
+                    let k = w["block"].as_u64().unwrap_or(0) as usize;
+                    let st = body.stmts.iter().find(|st| tokens_norm(*st).starts_with(&pfx)).cloned()
+                        .unwrap_or_else(|| lost(&format!("slice {}: within-statement `{}` not found in {}", name, pfx, fname)));
+                    struct Blocks { found: Vec<syn::Block>, depth: usize }
+                    impl<'ast> syn::visit::Visit<'ast> for Blocks {
+                        fn visit_block(&mut self, b: &'ast syn::Block) {
+                            // only the blocks directly nested in the statement (not blocks inside those blocks)
+                            if self.depth == 0 { self.found.push(b.clone()); }
+                            self.depth += 1;
+                            syn::visit::visit_block(self, b);
+                            self.depth -= 1;
+                        }
+                        fn visit_arm(&mut self, a: &'ast syn::Arm) {
+                            // an arm whose body is a bare expression counts as a block of one tail expression
+                            if self.depth == 0 {
+                                if let syn::Expr::Block(eb) = &*a.body { self.found.push(eb.block.clone()); }
+                                else { let e = &a.body; self.found.push(syn::parse_quote!({ #e })); }
+                            }
+                            self.depth += 1;
+                            syn::visit::visit_arm(self, a);
+                            self.depth -= 1;
+                        }
+                        fn visit_expr_closure(&mut self, _: &'ast syn::ExprClosure) {}
+                    }
+                    let mut bl = Blocks { found: vec![], depth: 0 };
+                    syn::visit::Visit::visit_stmt(&mut bl, &st);
+                    body = bl.found.get(k).cloned().unwrap_or_else(|| lost(&format!("slice {}: statement `{}` has only {} nested blocks", name, pfx, bl.found.len())));
+                }
+            }
             let idx_of = |pfx: &str, start: usize| -> Option<usize> {
                 body.stmts.iter().enumerate().skip(start).find(|(_, st)| tokens_norm(*st).starts_with(pfx)).map(|(i, _)| i)
             };
